@@ -23,7 +23,7 @@ from rustscan import Source, ScanError
 HERE = os.path.dirname(os.path.abspath(__file__))
 VERIF = os.path.dirname(HERE)
 CACHE = os.environ.get('VERIF_CACHE_DIR') or os.path.join(VERIF, '.cache')   # (maintenance sweeps give each worker its own copy)
-SCRATCH_ROOT = os.environ.get('VERIF_SCRATCH', '/tmp/verif-scratch')
+SCRATCH_ROOT = os.environ.get('VERIF_SCRATCH_ROOT') or os.environ.get('VERIF_SCRATCH', '/tmp/verif-scratch')   # (maintenance sweeps give each worker its own)
 
 
 def parse_template(path):
